@@ -115,7 +115,7 @@ PROPS = {
         "or InvalidData, never a panic (expect(\"TODO\") and the division by scale are unreachable).",
         'Range coder part: theorems about Model/Range.v (machine level, wrapping SB-bit arithmetic, six modelled panic sites proved unreachable) refined to the exact big-number spec Model/RangeSpec.v; messages shorter than 2^64 symbols (usize counter of held-back words). No axioms.', "Coq proof + debug-build correspondence on garbage"),
     "C12_range": _part(
-        ["Props.RangeExtra:C12_range"], [("fam_range", "gen_roundtrip", 152, 6000)],
+        ["Props.RangeExtra:C12_range", "Props.C12_range_bits"], [("fam_range", "gen_roundtrip", 152, 6000)],
         "range-coded message with the size bound evaluated",
         "C12_range_shrink / _size / _one_word_per_symbol: words <= n + 2 and B^words (M-1) prod(p_i K_i) <= "
         "B^2 M prod(2^P_i (K_i+1)) in exact integers.",
